@@ -87,31 +87,44 @@ Example C07_request_cookies_example :
   = Ok [(H "61"%string, H "31"%string); (H "6e"%string, W "0000e900003b00002001f600"%string); (H "62"%string, H "32"%string)].
 Proof. vm_compute. reflexivity. Qed.
 
+(* KNOWN FINDING (request-cookies:non-utf8-value): the hypothesis "the value is the utf-8 encoding of a text" cannot be
+   dropped.  A byte value that is not UTF-8 comes back exactly from parse_cookie, but request.cookies raises
+   UnicodeDecodeError - for every cookie of that header. *)
+Theorem C07_request_cookies_bytes_refuted :
+  exists b, octets b /\ good_pair (H "6e"%string, b)
+    /\ parse_cookie (render [(H "61"%string, H "31"%string); (H "6e"%string, b); (H "63"%string, H "33"%string)])
+       = [(H "61"%string, H "31"%string); (H "6e"%string, b); (H "63"%string, H "33"%string)]
+    /\ request_cookies (render [(H "61"%string, H "31"%string); (H "6e"%string, b); (H "63"%string, H "33"%string)])
+       = Raise UnicodeDecodeError.
+Proof. exact request_cookies_non_utf8_refuted. Qed.
+Print Assumptions C07_request_cookies_bytes_refuted.
+
 (* ------------------------------------------------------------------ one cookie, exactly the attributes requested *)
 (* Whenever make_cookie emits a line, the line is printable ASCII and the reference Set-Cookie splitter
    recovers the name, the value octets and exactly the requested attributes (nothing can be injected through
    value, path, domain or comment).  [r_date] is the rendered expires date (abstract). *)
 Theorem C07_one_cookie_exact_attrs : forall validate r line,
-  req_octets r -> plain (r_date r) = true -> samesite_plain r ->
+  req_octets r -> plain (r_date r) = true ->
   make_cookie validate r = Ok line ->
   forallb printable line = true
   /\ ref_parse line = Some (r_name r, value_octets r, requested r).
-Proof. exact one_cookie_exact_attrs. Qed.
+Proof. exact one_cookie_exact_attrs_any. Qed.
 Print Assumptions C07_one_cookie_exact_attrs.
 
-(* with SAMESITE_VALIDATION on, the hypothesis on SameSite is implied *)
-Theorem C07_validated_samesite_is_plain : forall r line, make_cookie true r = Ok line -> samesite_plain r.
-Proof. exact validated_samesite_plain. Qed.
-Print Assumptions C07_validated_samesite_is_plain.
+(* no hypothesis on SameSite is needed: with SAMESITE_VALIDATION on it is one of the three words, with the flag off
+   it must still be a token, so whatever is emitted needs no escaping and cannot end the attribute *)
+Theorem C07_emitted_samesite_is_plain : forall validate r line, make_cookie validate r = Ok line -> samesite_plain r.
+Proof. exact emitted_samesite_plain. Qed.
+Print Assumptions C07_emitted_samesite_is_plain.
 
 (* Response.set_cookie with any Unicode text: the line carries exactly its utf-8 octets *)
 Theorem C07_set_cookie_text_exact : forall validate r t b line,
   r_value r = CText t -> utf8_encode t = Some b ->
   opt_octets (r_path r) -> opt_octets (r_domain r) -> opt_octets (r_comment r) ->
-  plain (r_date r) = true -> samesite_plain r ->
+  plain (r_date r) = true ->
   set_cookie validate r = Ok line ->
   forallb printable line = true /\ ref_parse line = Some (r_name r, b, requested (with_value r (CBytes b))).
-Proof. exact set_cookie_text_exact. Qed.
+Proof. exact set_cookie_text_exact_any. Qed.
 Print Assumptions C07_set_cookie_text_exact.
 
 Definition example_request : request :=
@@ -137,22 +150,17 @@ Qed.
    not seen by it.  Hence parse_cookie(line) is the single pair and Cookie(line) holds exactly one cookie:
    nothing put into value, path, domain or comment is read as another cookie. *)
 Theorem C07_webob_reads_own_line : forall validate r line,
-  req_octets r -> plain (r_date r) = true -> cookie_date (r_date r) = true -> samesite_scannable r ->
+  req_octets r -> plain (r_date r) = true -> cookie_date (r_date r) = true ->
   make_cookie validate r = Ok line ->
   parse_cookie_raw line = (r_name r, value_octets r) :: valued_attrs (requested r)
   /\ parse_cookie line = [(r_name r, value_octets r)]
   /\ exists m, cookie_load line = [(r_name r, m)] /\ pm_name m = r_name r /\ pm_value m = value_octets r.
-Proof.
-  exact (fun validate r line Hro Hd Hcd Hss Hm =>
-           conj (webob_reads_own_line validate r line Hro Hd Hcd Hss Hm)
-                (conj (parse_cookie_own_line validate r line Hro Hd Hcd Hss Hm)
-                      (cookie_load_own_line validate r line Hro Hd Hcd Hss Hm))).
-Qed.
+Proof. exact webob_reads_own_line_any. Qed.
 Print Assumptions C07_webob_reads_own_line.
 
-Theorem C07_validated_samesite_is_scannable : forall r line, make_cookie true r = Ok line -> samesite_scannable r.
-Proof. exact validated_samesite_scannable. Qed.
-Print Assumptions C07_validated_samesite_is_scannable.
+Theorem C07_emitted_samesite_is_scannable : forall validate r line, make_cookie validate r = Ok line -> samesite_scannable r.
+Proof. exact emitted_samesite_scannable. Qed.
+Print Assumptions C07_emitted_samesite_is_scannable.
 
 Example C07_reads_own_line_example :
   cookie_date (r_date example_request) = true /\ cookie_date delete_expires = true
@@ -176,13 +184,19 @@ Theorem C07_rejects_bad_max_age : forall validate r,
 Proof. exact rejects_bad_max_age. Qed.
 Print Assumptions C07_rejects_bad_max_age.
 
-Theorem C07_accepts : forall validate r,
+(* with SAMESITE_VALIDATION off a SameSite value that is not a token is refused (it would be copied verbatim) *)
+Theorem C07_rejects_unvalidated_non_token : forall r s,
+  r_samesite r = Some s -> forallb tchar s = false -> exists e, make_cookie false r = Raise e.
+Proof. exact rejects_unvalidated_non_token. Qed.
+Print Assumptions C07_rejects_unvalidated_non_token.
+
+Theorem C07_accepts : forall (validate : bool) (r : request),
   mc_bad_max_age r = false ->
   name_accepted (r_name r) = true ->
   (forall t, r_value r = CText t -> is_ascii t = true) ->
   req_octets r -> plain (r_date r) = true ->
   (forall s, r_samesite r = Some s ->
-     plain s = true /\ (validate = true -> samesite_legal s = true) /\ (is_none s = true -> r_secure r = true)) ->
+     (if validate then samesite_legal s else forallb tchar s) = true /\ (is_none s = true -> r_secure r = true)) ->
   exists line, make_cookie validate r = Ok line.
 Proof. exact make_cookie_accepts. Qed.
 Print Assumptions C07_accepts.
